@@ -1,5 +1,6 @@
 import Gimli.Lemmas.LineSeq
 import Gimli.Lemmas.LineHeader
+import Gimli.Lemmas.LineEncode
 /-!
 # C04 — Line-number rows equal the DWARF state machine; sequences are consistent
 
@@ -212,6 +213,28 @@ example : (rows hdrVliw progV).map (fun r => (r.address, r.opIndex, r.line, r.en
      (328, 0, 3, true)] := by decide
 example : run hdrVliw bytesV = (rows hdrVliw progV).map (fun r => Ev.row (toRow r)) :=
   rows_refine hdrVliw (by decide) bytesV progV (by decide) (by decide)
+
+/-- **decode ∘ encode = id**: the decoder (`LineInstruction::parse`) inverts the §6.2.5 encoding
+of every instruction the header can express (`EncOk`: the opcode number is below `opcode_base` for
+standard opcodes, at or above it for special ones; operands fit; unknown standard opcodes carry the
+announced number of ULEB operands; extended opcodes of any length), whatever follows — standard,
+special, extended, unknown standard (0/1/N operands) and unknown extended opcodes, including
+`DW_LNS_advance_line` with every `i64` (signed LEB128 round trip, `Leb.signed_roundtrip`). -/
+theorem decode_encode (h : Params) (hv : h.Valid) (i : Instr) (hok : EncOk h i) (rest : Bytes) :
+    parseInstr h (encodeInstr h i ++ rest) = .ok (i, rest) :=
+  parseInstr_encode h hv i hok rest
+
+/-- **Rows refine the Spec, from the abstract program.** For every valid header and every
+instruction list that is expressible (`EncOk`) and well-formed (`WF`), running the implementation's
+model over the §6.2.5 *encoding* of the program yields exactly the rows of the §6.2 machine. -/
+theorem rows_refine_encoded (h : Params) (hv : h.Valid) (prog : List Instr)
+    (henc : ∀ i ∈ prog, EncOk h i) (hwf : WF h prog = true) :
+    run h (encodeProg h prog) = (rows h prog).map (fun r => Ev.row (toRow r)) := by
+  apply rows_refine h hv _ prog _ hwf
+  exact decodeAll_encodeProg h hv prog henc _ (by have := encodeProg_length h prog; omega)
+
+example : ∀ i ∈ prog4, EncOk hdr4 i := by decide
+example : ∀ i ∈ progV, EncOk hdrVliw i := by decide
 
 /-! ## "Splitting a program into sequences and resuming any sequence yields exactly the rows a
 straight run yields for it, and each sequence's reported address bounds are its first and end
